@@ -21,7 +21,10 @@ type Val struct {
 	Tup  []Val // tuple
 	Fn   *FnVal
 	Orig *Loc // for loaded slice values: where they were loaded from
+	Rune *runeSrc // provenance of a []rune value: the characters [Lo,Hi) of string S
 }
+
+type runeSrc struct{ S, Lo, Hi string }
 
 type FnVal struct {
 	Fn       *ssa.Function
